@@ -38,9 +38,10 @@ META = dict(
     explanation='Bounded solver verdicts over the real codec sources (util/base64.cpp, scalable_integer.cpp, serializer.cpp, crc.cpp, checksum.cpp, string.cpp, http/url.cpp) compiled to LLVM IR from the working tree. '
                 'Raw-buffer kernels are translated to C (engine/ir2c.py) and decided monolithically by CBMC (cadical): inputs, lengths, capacities and seeds are symbolic, outputs are compared with independent arithmetic references '
                 '(RFC 4648 by arithmetic, bitwise CRC definitions, RFC 1071) and guard bytes around every output detect writes beyond the capacity; table indexing is covered by CBMC bounds checks. '
-                'std::string / std::vector overloads and the URL / hex-string codecs are executed path-wise by engine/symir.py with z3.',
-    bounds='base64: raw length 1..6, decoder input length 0..5 and 8 (all 256 byte values), capacity symbolic; scalable integer: all 2^64 values, capacity 0..12, parser on arbitrary 12 bytes; serializer: one append/fetch of any kind from any position <= 16 (inductive), truncated fetch with <= 9 input bytes; '
+                'std::string / std::vector overloads and the URL / hex-string codecs are executed path-wise by engine/symir.py with z3.'
+                ' Extended: the 8-bit checksum is also compared with its definition on inputs 0xff^290 ++ 8 symbolic bytes with a symbolic length (the 16-bit accumulator only matters once the byte sum passes 0xffff).',
+    bounds='base64: raw length 1..6, decoder input length 0..5 and 8 (all 256 byte values), capacity symbolic; scalable integer: all 2^64 values, capacity 0..12, parser on arbitrary 12 bytes; serializer: one append/fetch of any kind from any position <= 16 (inductive), truncated fetch with <= 9 input bytes; ; sum8 long: 290 fixed + 8 symbolic bytes'
            'CRC/checksums: data <= 4 bytes (6 thorough), every seed; URL codec: strings of length 1..2 (3 thorough), decoder on arbitrary 4 bytes; hex decoder on arbitrary <= 4 bytes; MD5: message lengths 52..59 (0..20, 60..70, 116..124 thorough) x 6 split points, fixed content',
-    outside='equivalence of the MD5 compression function and of AES-128 on symbolic data (monolithic miters did not finish in the design-phase probes; only MD5 buffering/padding/length encoding is claimed, for concrete content with symbolic length and split); RawDataToHexStr (iostream formatting flags are not modelled); inputs longer than the bounds; Serializer over std::vector (resize path)',
+    outside='equivalence of the MD5 compression function and of AES-128 on symbolic data (monolithic miters did not finish in the design-phase probes; only MD5 buffering/padding/length encoding is claimed, for concrete content with symbolic length and split); RawDataToHexStr (iostream formatting flags are not modelled); inputs longer than the bounds; fully symbolic inputs of >= 258 bytes for the 8-bit checksum (did not finish in 15 min on any back end); Serializer over std::vector (resize path)',
     assumptions=['operator new never fails', 'isprint() follows the C locale', 'forming (not dereferencing) a one-before-begin pointer in appendPOD/fetchPOD reverse loops is not reported (standard-level UB no sanitizer confirms)'],
     trusted_base=['clang++-14 -O1 IR', 'engine/ir2c.py + cbmc 6.11 (cadical)', 'engine/symir.py + z3 and its std::string/vector/ctype models', 'engine/vp_models.c'])
